@@ -400,5 +400,41 @@ example : let am : RBM ℝ 2 3 := ⟨fun i j => (i.val : ℝ) - j.val + 0.5, fun
   exact ⟨C09_purity_pure psi hψ A,
     (C09_renyi_nonneg A _ (C09_pure_is_state psi hψ).1 (C09_pure_is_state psi hψ).2).2.2⟩
 
+/-- **RBM wavefunctions, no hypotheses** (second audit, item C09-A1): for EVERY parameter setting of the complex
+wavefunction `ψ_λμ` and every region `A` the swap estimator averages to the purity of the reduced state, the purity is a
+positive real ≤ 1 (second Rényi entropy well defined and non-negative), equal for `A` and its complement, and one for the
+empty and the full region. (`C09_purity_pure`, `C09_renyi_nonneg`, `C09_pure_symmetric`, `C09_pure_trivial` with the
+hypothesis `ψ ≠ 0` discharged by `C08_rbm_psi_ne_zero`.) -/
+theorem C09_renyi_nonneg_pure_rbm {hid : ℕ} (am ph : RBM ℝ n hid) (A : Fin n → Bool) :
+    let psi : Cfg n → C ℝ := fun σ => Wave.psiCplx am ph (fun j => bit (σ j))
+    (∑ s1, ∑ s2, bornPure psi s1 * bornPure psi s2 * swapApply (ImpState.pure psi) A s1 s2
+        = (purity A (normalised (dmPure psi))).re)
+      ∧ 0 < (purity A (normalised (dmPure psi))).re
+      ∧ 0 ≤ -Real.log (purity A (normalised (dmPure psi))).re
+      ∧ purity (regionCompl A) (normalised (dmPure psi)) = purity A (normalised (dmPure psi))
+      ∧ purity (fun _ => false) (normalised (dmPure psi)) = 1
+      ∧ purity (fun _ => true) (normalised (dmPure psi)) = 1 := by
+  intro psi
+  have hψ : ∀ σ, psi σ ≠ (0, 0) := fun σ => (C08_rbm_psi_ne_zero am ph σ).2
+  have hr := C09_renyi_nonneg A _ (C09_pure_is_state psi hψ).1 (C09_pure_is_state psi hψ).2
+  exact ⟨C09_purity_pure psi hψ A, hr.1, hr.2.2, C09_pure_symmetric psi A, (C09_pure_trivial psi hψ).1,
+    (C09_pure_trivial psi hψ).2.1⟩
+
+/-- … and of the positive wavefunction `ψ_λ`. -/
+theorem C09_renyi_nonneg_pure_rbm_pos {hid : ℕ} (am : RBM ℝ n hid) (A : Fin n → Bool) :
+    let psi : Cfg n → C ℝ := fun σ => Wave.psiPos am (fun j => bit (σ j))
+    (∑ s1, ∑ s2, bornPure psi s1 * bornPure psi s2 * swapApply (ImpState.pure psi) A s1 s2
+        = (purity A (normalised (dmPure psi))).re)
+      ∧ 0 < (purity A (normalised (dmPure psi))).re
+      ∧ 0 ≤ -Real.log (purity A (normalised (dmPure psi))).re
+      ∧ purity (regionCompl A) (normalised (dmPure psi)) = purity A (normalised (dmPure psi))
+      ∧ purity (fun _ => false) (normalised (dmPure psi)) = 1
+      ∧ purity (fun _ => true) (normalised (dmPure psi)) = 1 := by
+  intro psi
+  have hψ : ∀ σ, psi σ ≠ (0, 0) := fun σ => (C08_rbm_psi_ne_zero am am σ).1
+  have hr := C09_renyi_nonneg A _ (C09_pure_is_state psi hψ).1 (C09_pure_is_state psi hψ).2
+  exact ⟨C09_purity_pure psi hψ A, hr.1, hr.2.2, C09_pure_symmetric psi A, (C09_pure_trivial psi hψ).1,
+    (C09_pure_trivial psi hψ).2.1⟩
+
 end C09
 end QV.Props
